@@ -218,6 +218,12 @@ def run(ctx):
                         tol = 0.5000001 * 10 ** (-places) * basev ** scale + 1e-9
                         if abs(approx - size) <= tol:
                             ok_any = True
+                    # the base is the specifier's: `d` divides by 1000, `c` (without `d`) by 1024 whatever the unit is called
+                    if mfs is not None and scale and ("d" in (mfs.group(1) or "") or "c" in (mfs.group(1) or "")):
+                        fb = 1000 if "d" in mfs.group(1) else 1024
+                        if abs(num * fb ** scale - size) > 0.5000001 * 10 ** (-places) * fb ** scale + 1e-9:
+                            ctx.oracle_fail("the value shown is not the size divided in the base the specifier's flag selects",
+                                            {"size": size, "spec": spec, "level": "in-process format_filesize"}, detail={"text": text, "base": fb})
                     if not ok_any:
                         ctx.oracle_fail("rendering does not parse back to the size within the displayed precision",
                                         {"size": size, "spec": spec, "level": "in-process format_filesize"}, detail={"text": text})
